@@ -196,6 +196,14 @@ def check_ks_noise(chk, v, rule="R2"):
     idx_inc = [p for p in kps if p["kind"] == "local" and p["op"] in ("+=", "++") and p["loops"]]
     inline_centre = None
     if not consumers:
+        # the noise may be consumed through a pointer whose progress the executor could not put in closed form (advanced under a
+        # condition, e.g. `if (h == 0) {...; continue;} use(*noise_it++)`): undecided, not a violation
+        opaque = [p for p in kps if p["kind"] == "call" and any(
+            isinstance(a_, tuple) and any(st_[0] == "idx" and sym.root_of(st_) is not None and sym.root_of(st_)[0] == "var" for st_ in sym.subterms(a_))
+            for a_ in p["args"] if a_ is not None)]
+        if opaque:
+            chk.broken("lweCreateKeySwitchKey: %s at line %s reads through a local pointer that is not resolved to the noise array" % (
+                opaque[0]["name"], opaque[0]["line"]))
         problems.append("the recentred draws are never added to a row")
     elif len(consumers) != 1:
         raise AnalysisBroken("lweCreateKeySwitchKey: %d statements consume the noise array" % len(consumers))
